@@ -57,12 +57,14 @@ double grid_value(const int i)
 // optimum trial is not the first one evaluated
 tensor2d_t make_values(const int p, const int f, const tensor_size_t n, const int split)
 {
+    // the training errors order the trials the opposite way to the validation errors, so that an optimum chosen by
+    // the wrong split (or a slot mix-up) is visible
     tensor2d_t v(2, n);
     for (tensor_size_t i = 0; i < n; ++i)
     {
-        v(0, i) = std::fabs(static_cast<double>(p) - 0.0) * 0.125 + 0.01 * static_cast<double>(f) + 0.001 * static_cast<double>(i) +
-                  (split == 0 ? 0.5 : 0.0);
-        v(1, i) = 10.0 + static_cast<double>(p) + 0.1 * static_cast<double>(f) + 0.01 * static_cast<double>(i) + (split == 0 ? 0.5 : 0.0);
+        const auto base = split == 0 ? 0.9 - 0.125 * static_cast<double>(p) : 0.125 * static_cast<double>(p);
+        v(0, i)         = base + 0.01 * static_cast<double>(f) + 0.001 * static_cast<double>(i);
+        v(1, i)         = 10.0 + (split == 0 ? 1.0 : -1.0) * static_cast<double>(p) + 0.1 * static_cast<double>(f) + 0.01 * static_cast<double>(i);
     }
     return v;
 }
